@@ -31,7 +31,7 @@ def main():
         import spowtd.load  # noqa: F401
     import importlib
     from hypothesis import HealthCheck, given, settings
-    from vfw import runner
+    from vfw import runner, ambient
 
     module = importlib.import_module('vfw.props.' + pid)
     part = next(p for p in module.PARTS if p.name == part_name)
@@ -46,7 +46,7 @@ def main():
 
     @settings(database=None, deadline=None,
               suppress_health_check=list(HealthCheck))
-    @given(part.strategy('thorough'))
+    @given(ambient.wrap(part.strategy('thorough')))
     def test(case):
         runner.run_case(part, case, stats, known)
         if stats.evaluations % 200 == 0:
